@@ -39,4 +39,417 @@ end
 def Parsed.ShapeOK {α : Type} (p : Parsed α) : Prop :=
   (∀ s, p.json = some s → s.ShapeOK) ∧ (∀ f, p.gambit = some f → f.root.ShapeOK)
 
+mutual
+/-- two facts `gambit_parser`'s `validate` guarantees about an accepted file and that the meaning
+of the file depends on: no terminal carries the null outcome `0` (`NullOutcomePayoffs`: a terminal
+always has payoffs), and the probabilities of every chance node do not add up to zero
+(`ChanceNotDistribution`: they add up to one) -/
+def Efg.FileOK {α : Type} [Zero α] [Add α] : Efg α → Prop
+  | .term oc _ => oc ≠ 0
+  | .chance _ _ probs kids _ _ => probs.sum ≠ 0 ∧ Efg.FileOKL kids
+  | .player _ _ _ _ kids _ _ => Efg.FileOKL kids
+def Efg.FileOKL {α : Type} [Zero α] [Add α] : List (Efg α) → Prop
+  | [] => True
+  | k :: ks => Efg.FileOK k ∧ Efg.FileOKL ks
+end
+
+namespace CliP
+variable {α : Type} [Field α] [LinearOrder α] [IsStrictOrderedRing α]
+
+/-! ## sorting and zipping -/
+
+theorem insertBy_perm {β : Type} (lt : β → β → Bool) (x : β) (l : List β) :
+    (insertBy lt x l).Perm (x :: l) := by
+  induction l with
+  | nil => exact List.Perm.refl _
+  | cons y ys ih =>
+    simp only [insertBy]
+    split_ifs
+    · exact (List.Perm.cons y ih).trans (List.Perm.swap x y ys)
+    · exact List.Perm.refl _
+
+theorem sortBy_perm {β : Type} (lt : β → β → Bool) (l : List β) : (sortBy lt l).Perm l := by
+  induction l with
+  | nil => exact List.Perm.refl _
+  | cons x xs ih =>
+    have : sortBy lt (x :: xs) = insertBy lt x (sortBy lt xs) := rfl
+    rw [this]
+    exact (insertBy_perm lt x _).trans (List.Perm.cons x ih)
+
+theorem mem_sortBy {β : Type} (lt : β → β → Bool) (l : List β) (x : β) :
+    x ∈ sortBy lt l ↔ x ∈ l := (sortBy_perm lt l).mem_iff
+
+theorem zip3_eq_zip {β γ δ : Type} (a : List β) (b : List γ) (c : List δ) :
+    zip3 a b c = a.zip (b.zip c) := by
+  induction a generalizing b c with
+  | nil => cases b <;> cases c <;> simp [zip3]
+  | cons x xs ih =>
+    cases b with
+    | nil => simp [zip3]
+    | cons y ys =>
+      cases c with
+      | nil => simp [zip3]
+      | cons z zs => simp [zip3, ih]
+
+theorem mem_zip3 {β γ δ : Type} {a : List β} {b : List γ} {c : List δ} {e : β × γ × δ}
+    (h : e ∈ zip3 a b c) : e.1 ∈ a ∧ e.2.1 ∈ b ∧ e.2.2 ∈ c := by
+  obtain ⟨x, y, z⟩ := e
+  rw [zip3_eq_zip] at h
+  have h1 := List.of_mem_zip h
+  have h2 := List.of_mem_zip h1.2
+  exact ⟨h1.1, h2.1, h2.2⟩
+
+theorem zip3_map_probs {β γ δ : Type} (a : List β) (b : List γ) (c : List δ)
+    (h1 : a.length = c.length) (h2 : b.length = c.length) :
+    (zip3 a b c).map (·.2.1) = b := by
+  rw [zip3_eq_zip]
+  have e : (fun e : β × γ × δ => e.2.1) = Prod.fst ∘ Prod.snd := rfl
+  rw [e, ← List.map_map, List.map_snd_zip (by rw [List.length_zip]; omega),
+    List.map_fst_zip (by omega)]
+
+theorem zip3_map_kids {β γ δ : Type} (a : List β) (b : List γ) (c : List δ)
+    (h1 : a.length = c.length) (h2 : b.length = c.length) :
+    (zip3 a b c).map (·.2.2) = c := by
+  rw [zip3_eq_zip]
+  have e : (fun e : β × γ × δ => e.2.2) = Prod.snd ∘ Prod.snd := rfl
+  rw [e, ← List.map_map, List.map_snd_zip (by rw [List.length_zip]; omega),
+    List.map_snd_zip (by omega)]
+
+theorem zip3_map_pair {β γ δ : Type} (a : List β) (b : List γ) (c : List δ)
+    (h1 : a.length = c.length) (h2 : b.length = c.length) :
+    (zip3 a b c).map (·.2) = b.zip c := by
+  rw [zip3_eq_zip]
+  exact List.map_snd_zip (by rw [List.length_zip]; omega)
+
+theorem shapeL_iff (l : List (Raw α)) : Raw.ShapeL l ↔ ∀ r ∈ l, Raw.Shape r := by
+  induction l with
+  | nil => simp [Raw.ShapeL]
+  | cons k ks ih => simp [Raw.ShapeL, ih]
+
+theorem lvalidL_iff (ρ : LProfile α) (l : List (Raw α)) :
+    LValidOnL ρ l ↔ ∀ r ∈ l, LValidOn ρ r := by
+  induction l with
+  | nil => simp [LValidOnL]
+  | cons k ks ih => simp [LValidOnL, ih]
+
+/-! ## the trees handed to `from_root` are shaped -/
+
+mutual
+theorem jstate_shape : ∀ s : JState α, Raw.Shape s.toRaw
+  | .terminal p => by simp [JState.toRaw, Raw.Shape]
+  | .chance info names probs kids => by
+    simp only [JState.toRaw, Raw.Shape, List.length_map, true_and]
+    rw [shapeL_iff]
+    intro r hr
+    obtain ⟨e, he, rfl⟩ := List.mem_map.mp hr
+    rw [mem_sortBy] at he
+    exact jstateL_shape kids _ (mem_zip3 he).2.2
+  | .player one info acts kids => by
+    simp only [JState.toRaw, Raw.Shape, List.length_map, true_and]
+    rw [shapeL_iff]
+    intro r hr
+    obtain ⟨e, he, rfl⟩ := List.mem_map.mp hr
+    rw [mem_sortBy] at he
+    exact jstateL_shape kids _ (List.of_mem_zip he).2
+theorem jstateL_shape : ∀ ks : List (JState α), ∀ r ∈ JState.toRawL ks, Raw.Shape r
+  | [], r, h => by simp [JState.toRawL] at h
+  | k :: ks, r, h => by
+    simp only [JState.toRawL, List.mem_cons] at h
+    rcases h with rfl | h
+    · exact jstate_shape k
+    · exact jstateL_shape ks r h
+end
+
+mutual
+theorem efg_shape (gi : GlobalInfo α) : ∀ (n : Efg α) (cum : α) (r : Raw α),
+    Efg.toRaw gi n cum = .ok r → Raw.Shape r
+  | .term oc pays, cum, r, h => by
+    simp only [Efg.toRaw] at h
+    split at h
+    · cases h
+    · cases h; simp [Raw.Shape]
+  | .chance info names probs kids oc pays, cum, r, h => by
+    simp only [Efg.toRaw] at h
+    split at h
+    · cases h
+    · split at h
+      · cases h
+      · rename_i np _ rs hrs
+        cases h
+        simp only [Raw.Shape, List.length_map, true_and]
+        rw [shapeL_iff]
+        intro r hr
+        obtain ⟨e, he, rfl⟩ := List.mem_map.mp hr
+        rw [mem_sortBy] at he
+        exact efgL_shape gi kids _ rs hrs _ (mem_zip3 he).2.2
+  | .player num info name acts kids oc pays, cum, r, h => by
+    simp only [Efg.toRaw] at h
+    split at h
+    · cases h
+    · split at h
+      · cases h
+      · split at h
+        · cases h
+        · split at h
+          · cases h
+          · rename_i rs hrs
+            cases h
+            simp only [Raw.Shape, List.length_map, true_and]
+            rw [shapeL_iff]
+            intro r hr
+            obtain ⟨e, he, rfl⟩ := List.mem_map.mp hr
+            rw [mem_sortBy] at he
+            exact efgL_shape gi kids _ rs hrs _ (List.of_mem_zip he).2
+theorem efgL_shape (gi : GlobalInfo α) : ∀ (ks : List (Efg α)) (cum : α) (rs : List (Raw α)),
+    Efg.toRawL gi ks cum = .ok rs → ∀ r ∈ rs, Raw.Shape r
+  | [], cum, rs, h, r, hr => by
+    simp only [Efg.toRawL] at h
+    cases h
+    simp at hr
+  | k :: ks, cum, rs, h, r, hr => by
+    simp only [Efg.toRawL] at h
+    split at h
+    · cases h
+    · rename_i r0 hr0
+      split at h
+      · cases h
+      · rename_i rs0 hrs0
+        cases h
+        simp only [List.mem_cons] at hr
+        rcases hr with rfl | hr
+        · exact efg_shape gi k cum _ hr0
+        · exact efgL_shape gi ks cum rs0 hrs0 r hr
+end
+
+/-! ## every loaded game is well formed -/
+
+theorem fromRootCli_wf {raw : Raw α} {sum : α} {g : Game α} {s : α} (hs : Raw.Shape raw)
+    (h : fromRootCli raw sum = .ok (g, s)) : GameWF g ∧ s = sum := by
+  unfold fromRootCli at h
+  split at h
+  · cases h
+  · rename_i g' hg
+    cases h
+    exact ⟨compile_ok_wf raw hs _ hg, rfl⟩
+
+theorem jsonFromState_wf {s : JState α} {g : Game α} {sum : α}
+    (h : jsonFromState s = .ok (g, sum)) : GameWF g :=
+  (fromRootCli_wf (jstate_shape s) h).1
+
+theorem gambitFromAst_wf {numName : Nat → Nat} {f : EfgFile α} {g : Game α} {sum : α}
+    (h : gambitFromAst numName f = .ok (g, sum)) : GameWF g := by
+  unfold gambitFromAst at h
+  split at h
+  · cases h
+  · rename_i raw sum' hraw
+    unfold gambitRaw at hraw
+    split_ifs at hraw
+    split at hraw
+    · cases hraw
+    · split at hraw
+      · cases hraw
+      · rename_i gi _ _ raw' hr
+        cases hraw
+        exact (fromRootCli_wf (efg_shape gi f.root 0 _ hr) h).1
+
+theorem loadGame_cases (numName : Nat → Nat) (fmt : InputFormat) (kind : InputKind) (p : Parsed α) :
+    loadGame numName fmt kind p = jsonFromReader p ∨
+    loadGame numName fmt kind p = gambitFromReader numName p ∨
+    loadGame numName fmt kind p = autoFromReader numName p := by
+  cases fmt <;> cases kind <;> simp [loadGame]
+
+/-- every game the program loads is well formed (the shape of the AST is not even needed: the
+conversions pair the components up before `from_root` sees them) -/
+theorem loadGame_wf {numName : Nat → Nat} {fmt : InputFormat} {kind : InputKind} {p : Parsed α}
+    {g : Game α} {sum : α} (h : loadGame numName fmt kind p = .ok (g, sum)) : GameWF g := by
+  rcases loadGame_cases numName fmt kind p with e | e | e <;> rw [e] at h
+  · unfold jsonFromReader at h
+    split at h
+    · cases h
+    · exact jsonFromState_wf h
+  · unfold gambitFromReader at h
+    split at h
+    · cases h
+    · exact gambitFromAst_wf h
+  · unfold autoFromReader at h
+    split at h
+    · exact jsonFromState_wf h
+    · split at h
+      · exact gambitFromAst_wf h
+      · cases h
+
+/-! ## the output record -/
+
+theorem hasDupNat_eq_false (l : List Nat) : hasDupNat l = false ↔ l.Nodup := by
+  induction l with
+  | nil => simp [hasDupNat]
+  | cons x xs ih => simp [hasDupNat, ih]
+
+/-- the conversion to the printed `Strategy` drops nothing from a named view: `as_named` lists only
+positive probabilities already -/
+theorem strategyOfNamed_asNamed (infos : List PInfo) (singles : List (Nat × Nat)) (σ : Strat α)
+    (hn : ((asNamed infos singles σ).map (·.1)).Nodup) :
+    strategyOfNamed (asNamed infos singles σ) = some (asNamed infos singles σ) := by
+  unfold strategyOfNamed
+  rw [if_neg (by rw [(hasDupNat_eq_false _).mpr hn]; simp)]
+  congr 1
+  unfold asNamed
+  rw [List.map_append, List.map_map, List.map_map]
+  congr 1
+  · apply List.map_congr_left
+    rintro ⟨i, v⟩ _
+    simp only [Function.comp, ActIter.toList, List.filter_filter, Bool.and_self]
+  · apply List.map_congr_left
+    rintro ⟨l, a⟩ _
+    simp [Function.comp]
+
+/-- the named view of a valid strategy that fits well-formed tables is a valid printed strategy
+(the three clauses of `PrintedValid`, `Props/C15.lean`) -/
+theorem asNamed_valid (infos : List PInfo) (singles : List (Nat × Nat)) (σ : Strat α)
+    (hw : TablesWF infos singles) (hf : Fits infos σ) (hσ : IsStrat σ) :
+    (asNamed infos singles σ).map (·.1) = infos.map (·.label) ++ singles.map (·.1) ∧
+    ((asNamed infos singles σ).map (·.1)).Nodup ∧
+    ∀ e ∈ asNamed infos singles σ, (∀ a ∈ e.2, 0 < a.2) ∧ (e.2.map (·.2)).sum = 1 ∧
+      (∀ a ∈ e.2, (∃ i ∈ infos, i.label = e.1 ∧ a.1 ∈ i.actions) ∨ (e.1, a.1) ∈ singles) := by
+  refine ⟨asNamed_keys infos singles σ hf, asNamed_keys_nodup infos singles σ hw hf, ?_⟩
+  intro e he
+  unfold asNamed at he
+  rcases List.mem_append.mp he with he | he
+  · obtain ⟨⟨i, v⟩, hiv, rfl⟩ := List.mem_map.mp he
+    obtain ⟨k, hk⟩ := List.mem_iff_getElem?.mp hiv
+    obtain ⟨hi, hv⟩ := List.getElem?_zip_eq_some.mp hk
+    refine ⟨?_, (asNamed_multi infos singles σ hf hσ k i v hi hv).2, ?_⟩
+    · intro a ha
+      simp only [ActIter.toList, List.mem_filter, decide_eq_true_eq] at ha
+      exact ha.2
+    · intro a ha
+      simp only [ActIter.toList, List.mem_filter] at ha
+      obtain ⟨a1, a2⟩ := a
+      exact Or.inl ⟨i, (List.of_mem_zip hiv).1, rfl, (List.of_mem_zip ha.1).1⟩
+  · obtain ⟨⟨l, a⟩, hla, rfl⟩ := List.mem_map.mp he
+    refine ⟨?_, by simp, ?_⟩
+    · intro b hb
+      simp only [List.mem_singleton] at hb
+      subst hb
+      exact zero_lt_one
+    · intro b hb
+      simp only [List.mem_singleton] at hb
+      subst hb
+      exact Or.inr hla
+
+theorem assemble_ok {g : Game α} {sum : α} {info : StrategiesInfo α} {one two : Strat α}
+    {out : CliOut α} (h : assemble g sum info one two = .ok out) :
+    ∃ s1 s2, strategyOfNamed (asNamed g.p1 g.s1 one) = some s1 ∧
+      strategyOfNamed (asNamed g.p2 g.s2 two) = some s2 ∧
+      out = ⟨info.regret, info.playerUtility true + sum, info.playerUtility false + sum,
+        info.playerRegret true, info.playerRegret false, s1, s2⟩ := by
+  unfold assemble at h
+  split at h
+  · rename_i s1 s2 h1 h2
+    cases h
+    exact ⟨s1, s2, h1, h2, rfl⟩
+  · cases h
+
+/-- the clip step prints one of two profiles -/
+theorem report_cases {g : Game α} {sum clip : α} {one two : Strat α} {out : CliOut α}
+    (h : report g sum clip one two = .ok out) :
+    ∃ one' two', ((one' = one ∧ two' = two) ∨
+        (one' = truncate clip one ∧ two' = truncate clip two)) ∧
+      assemble g sum (getInfo g (fun p => if p then one' else two')) one' two' = .ok out := by
+  unfold report at h
+  simp only at h
+  split_ifs at h
+  · exact ⟨_, _, Or.inr ⟨rfl, rfl⟩, h⟩
+  · exact ⟨_, _, Or.inl ⟨rfl, rfl⟩, h⟩
+
+theorem truncate_fits {infos : List PInfo} {σ : Strat α} (clip : α)
+    (h : IsStrat σ ∧ Fits infos σ) : IsStrat (truncate clip σ) ∧ Fits infos (truncate clip σ) := by
+  refine ⟨truncate_valid _ _ h.1, ?_⟩
+  unfold Fits
+  rw [truncate_shape]
+  exact h.2
+
+theorem cliMain_ok {env : Env} {sched : Sched ℝ} {draw : DrawFn ℝ} {numName : Nat → Nat}
+    {o : CliOpts ℝ} {fmt : InputFormat} {kind : InputKind} {p : Parsed ℝ} {out : CliOut ℝ}
+    (h : cliMain env sched draw numName o fmt kind p = .ok out) :
+    ∃ g sum sol, loadGame numName fmt kind p = .ok (g, sum) ∧
+      gameSolve env sched g o.method o.iters o.maxRegret o.parallel
+        (some o.discount.intoParams) draw = .ok sol ∧
+      report g sum o.clipThreshold sol.stratOne sol.stratTwo = .ok out := by
+  unfold cliMain at h
+  split at h
+  · cases h
+  · rename_i g sum hl
+    unfold runGame at h
+    split at h
+    · cases h
+    · rename_i sol hsol
+      exact ⟨g, sum, sol, hl, hsol, h⟩
+
+theorem intoParams_ok (d : Discount) : (d.intoParams : RegretParams ℝ).OK := by
+  cases d
+  · exact presets_ok.1
+  · exact presets_ok.2.1
+  · exact presets_ok.2.2.1
+  · exact presets_ok.2.2.2.1
+  · exact presets_ok.2.2.2.2.1
+
+/-- what a successful run prints: a valid profile of the (well-formed) game that was read,
+assembled with its own evaluation -/
+theorem cliMain_printed {env : Env} {sched : Sched ℝ} (hs : sched.Fair) {draw : DrawFn ℝ}
+    {numName : Nat → Nat} {o : CliOpts ℝ} {fmt : InputFormat} {kind : InputKind} {p : Parsed ℝ}
+    {out : CliOut ℝ} (h : cliMain env sched draw numName o fmt kind p = .ok out) :
+    ∃ g sum one two, loadGame numName fmt kind p = .ok (g, sum) ∧ GameWF g ∧
+      (IsStrat one ∧ Fits g.p1 one) ∧ (IsStrat two ∧ Fits g.p2 two) ∧
+      assemble g sum (getInfo g (fun p => if p then one else two)) one two = .ok out := by
+  obtain ⟨g, sum, sol, hl, hsol, hr⟩ := cliMain_ok h
+  have hg : GameWF g := loadGame_wf hl
+  have hw := solve_wellformed env sched hs g hg o.method o.iters o.maxRegret o.parallel
+    (some o.discount.intoParams) (fun q hq => by cases hq; exact intoParams_ok _) draw sol hsol
+  obtain ⟨one', two', hc, ha⟩ := report_cases hr
+  have h1 : IsStrat sol.stratOne ∧ Fits g.p1 sol.stratOne := hw.stratOne
+  have h2 : IsStrat sol.stratTwo ∧ Fits g.p2 sol.stratTwo := hw.stratTwo
+  refine ⟨g, sum, one', two', hl, hg, ?_, ?_, ha⟩
+  · rcases hc with ⟨rfl, rfl⟩ | ⟨rfl, rfl⟩
+    · exact h1
+    · exact truncate_fits _ h1
+  · rcases hc with ⟨rfl, rfl⟩ | ⟨rfl, rfl⟩
+    · exact h2
+    · exact truncate_fits _ h2
+
+/-- the assertion "internal error: found duplicate infosets" never fires on a valid profile of a
+well-formed game -/
+theorem assemble_succeeds {g : Game α} (hg : GameWF g) (sum : α) (info : StrategiesInfo α)
+    {one two : Strat α} (h1 : IsStrat one ∧ Fits g.p1 one) (h2 : IsStrat two ∧ Fits g.p2 two) :
+    ∃ out, assemble g sum info one two = .ok out := by
+  unfold assemble
+  rw [strategyOfNamed_asNamed _ _ _ (asNamed_keys_nodup g.p1 g.s1 one hg.tables1 h1.2),
+    strategyOfNamed_asNamed _ _ _ (asNamed_keys_nodup g.p2 g.s2 two hg.tables2 h2.2)]
+  exact ⟨_, rfl⟩
+
+/-- once the game is loaded and the solve returns, the program prints a result -/
+theorem cliMain_succeeds {env : Env} {sched : Sched ℝ} (hs : sched.Fair) {draw : DrawFn ℝ}
+    {numName : Nat → Nat} {o : CliOpts ℝ} {fmt : InputFormat} {kind : InputKind} {p : Parsed ℝ}
+    {g : Game ℝ} {sum : ℝ} {sol : SolveOut ℝ} (hl : loadGame numName fmt kind p = .ok (g, sum))
+    (hsol : gameSolve env sched g o.method o.iters o.maxRegret o.parallel
+      (some o.discount.intoParams) draw = .ok sol) :
+    ∃ out, cliMain env sched draw numName o fmt kind p = .ok out := by
+  have hg : GameWF g := loadGame_wf hl
+  have hw := solve_wellformed env sched hs g hg o.method o.iters o.maxRegret o.parallel
+    (some o.discount.intoParams) (fun q hq => by cases hq; exact intoParams_ok _) draw sol hsol
+  have h1 : IsStrat sol.stratOne ∧ Fits g.p1 sol.stratOne := hw.stratOne
+  have h2 : IsStrat sol.stratTwo ∧ Fits g.p2 sol.stratTwo := hw.stratTwo
+  unfold cliMain
+  rw [hl]
+  simp only
+  unfold runGame
+  rw [hsol]
+  simp only
+  unfold report
+  simp only
+  split_ifs
+  · exact assemble_succeeds hg _ _ (truncate_fits _ h1) (truncate_fits _ h2)
+  · exact assemble_succeeds hg _ _ h1 h2
+
+end CliP
 end Cfr
